@@ -415,7 +415,7 @@ func runCheck(prop, tier, only string, jobs, seed int, noReplay bool, dump strin
 			case "sat":
 				if ob.Kind == "lemma" {
 					// a lemma is proved from a reduced context: a model only says the context was too weak
-					ev.Coverage.Undecided = append(ev.Coverage.Undecided, fmt.Sprintf("%s[%s] lemma not provable from the selected facts: %s", r.t.harness, r.t.caseStr(), ob.Msg))
+					ev.Coverage.LemmaContextTooWeak++
 					continue
 				}
 				ev.Coverage.SatObligations++
